@@ -24,9 +24,12 @@ import (
 	"os"
 	"os/exec"
 	"path/filepath"
+	"runtime"
+	"runtime/debug"
 	"strconv"
 	"strings"
 	"syscall"
+	"time"
 	"unsafe"
 
 	sbytes "github.com/talostrading/sonic/bytes"
@@ -442,6 +445,38 @@ func namedMappings(substr string) []mapping {
 	return out
 }
 
+// mirOrphanClaim creates a buffer, takes a claim and returns without the handle (go:noinline: no reference survives in a register
+// or stack slot of the caller).
+//
+//go:noinline
+func mirOrphanClaim(page int) (claim []byte, base uintptr, size int) {
+	b, err := sbytes.NewMirroredBuffer(2*page, false)
+	if err != nil || b == nil {
+		return nil, 0, 0
+	}
+	c := b.Claim(page + 17)
+	if len(c) != page+17 {
+		_ = b.Destroy()
+		return nil, 0, 0
+	}
+	return c, uintptr(unsafe.Pointer(&c[0])), b.Size()
+}
+
+// namedMappingsAt: is [base, base+n) still mapped (per /proc/self/maps)?
+func namedMappingsAt(base uintptr, n int) bool {
+	data, err := os.ReadFile("/proc/self/maps")
+	if err != nil {
+		return false
+	}
+	for _, line := range strings.Split(string(data), "\n") {
+		var lo, hi uint64
+		if _, err := fmt.Sscanf(line, "%x-%x", &lo, &hi); err == nil && lo <= uint64(base) && uint64(base) < hi {
+			return true
+		}
+	}
+	return false
+}
+
 func maxInt0(a int) int {
 	if a < 0 {
 		return 0
@@ -718,6 +753,35 @@ func mirDirect(seed uint64, tier string, args []string, w *bufio.Writer) {
 			fmt.Fprintf(w, "DIRECT-STAT {\"mirrored_without_dev_shm\": \"skipped (no private mount namespace here)\"}\n")
 		}
 	}
+	// a claim that outlives the handle: claims point into mmap'ed memory the collector does not trace; nothing may unmap it behind
+	// a claim the application still holds, also when the *MirroredBuffer itself has become unreachable and collections have run
+	func() {
+		claim, base, size := mirOrphanClaim(page)
+		if claim == nil {
+			return
+		}
+		for i := 0; i < 4; i++ {
+			runtime.GC()
+			time.Sleep(5 * time.Millisecond)
+		}
+		old := debug.SetPanicOnFault(true)
+		func() {
+			defer func() {
+				if p := recover(); p != nil {
+					fail("direct.claim-unmapped", "a claim of %d bytes was held, the buffer's handle dropped and the collector run: the claim's memory is gone (%v)", len(claim), p)
+				}
+			}()
+			claim[0], claim[len(claim)-1] = 0x11, 0x22
+			if claim[0] != 0x11 || claim[len(claim)-1] != 0x22 {
+				fail("direct.claim-unmapped", "a claim held after its handle was dropped no longer keeps what is stored in it")
+			}
+		}()
+		debug.SetPanicOnFault(old)
+		// (no handle left to Destroy: the two halves are unmapped by hand; the backing file was removed by the constructor)
+		if left := namedMappingsAt(base, 2*size); left {
+			_ = syscall.Munmap(unsafe.Slice((*byte)(unsafe.Pointer(base)), 2*size))
+		}
+	}()
 	// requests the constructor must reject leave nothing behind
 	for _, req := range []int{0, -1, -page, maxInt, -maxInt - 1} {
 		b, err := sbytes.NewMirroredBuffer(req, false)
